@@ -133,6 +133,39 @@ example :
     w.tornNets = [1] ∧ w.nets.length = 2 := by
   decide +kernel
 
+/-- **Nothing follows a DISCONNECT, also when `disconnect()` is dropped.** In every world a program
+produces (transport not marked torn): while `disconnect()` is suspended at its `flush` — the DISCONNECT is
+wholly on the transport — the handle is already dead (`disconnect_with` calls `handle_disconnect()` before it
+awaits the flush: the repaired defect F26). So dropping the future there leaves a dead handle, and a dead
+handle writes nothing (`C01_dead_handle_writes_nothing`). Dropping it earlier, inside the write of the
+DISCONNECT, is the torn case the mark records (known finding F2b). -/
+theorem C01_disconnect_flush_pending_means_dead (cfg : Cfg) (ds : List Directive) :
+    let w := ds.foldl World.execDirective { sess := Session.new cfg }
+    w.nets.length ∉ w.tornNets → w.fut = some .discFlush → w.live = false ∧ w.conn.isSome = true := by
+  intro w hnt hf
+  have hinv := run_WInv ds { sess := Session.new cfg } (WInv_init cfg)
+  rcases hinv.cur with ht | hp
+  · exact (hnt ht).elim
+  · rw [hf] at hp
+    have hp' : DiscFlushPre w.view := hp
+    exact ⟨hp'.2.1, hp'.2.2.2⟩
+
+/-- The same, one step earlier: the call of `doLocalWrite` that finds nothing left to write of the
+DISCONNECT kills the handle before `doLocalFlush` runs, whatever the flush then does (pending, error, ok). -/
+theorem C01_disconnect_written_kills_handle (fuel : Nat) (w : World) :
+    doLocalWrite (fuel + 1) w 2 [] = doLocalFlush fuel w.handleDisconnect 2 := by
+  simp only [doLocalWrite, List.isEmpty_nil, if_true, discDone_two]
+
+/-- Concretely (the witness of F26): `disconnect`, the whole DISCONNECT accepted, the flush pending, the
+future dropped, then a QoS 1 publish: the publish is refused with `Disconnected` and the wire ends with
+the DISCONNECT. -/
+example :
+    let w := ([.connect, .rx [0x20, 0x03, 0x00, 0x00, 0x00], .go, .disconnect { reason := none, props := none }, .d 250,
+               .cancel, .publish { qos := 1, retain := false, topic := [0x74], payload := .bytes [0x70], props := .slice [] },
+               .go] : List Directive).foldl World.execDirective { sess := Session.new C01Wire_cfg }
+    w.tornNets = [] ∧ w.live = false ∧ w.curNet.wire.drop 29 = ([0xe0, 0x00] : Bytes) := by
+  decide +kernel
+
 /-- Cancel-safety of the queued writes, concretely: the QoS 1 publish of `C01Wire_prog` is dropped
 after 3 bytes; nothing is marked, and the `poll` that follows writes the remaining 6 bytes of the same
 packet — the wire is CONNECT followed by one whole PUBLISH. -/
